@@ -5,7 +5,7 @@ k-th WRITE (or READ) request of the session is answered with an SFTP error statu
 (writes: codes 1..8; reads: codes 2..8) or, for reads, with fewer bytes than requested
 ("short"). k == -1 means "every request". Operations: put (local path), putfo (file
 object, optionally a source that returns short local reads), get (local path), getfo,
-and "pwrite" = SFTPFile opened for writing, set_pipelined(True), write()s, close().
+and "pwrite" = SFTPFile opened for writing, set_pipelined(True/False), write()s, close().
 
 Oracle (the statement, nothing more):
   * the call returns  =>  destination bytes == source bytes; put/putfo with confirm return
@@ -36,7 +36,7 @@ RULE = (
     "confirm, callback, prefetch, max_concurrent_prefetch_requests, short local source reads, fault plan = "
     "k-th WRITE/READ request (or every request) answered with SFTP error code 1..8 (reads: 2..8) or a short read); "
     "hypothesis-sampled, plus an enumeration of every single failing chunk position x every code for files of 1..N "
-    "chunks (N=3 quick, 8 thorough, sharded over the workers). non-trivial = the fault plan was actually hit "
+    "chunks (N=2 quick, 8 thorough, sharded over the workers). non-trivial = the fault plan was actually hit "
     "(server log shows the faulted request) ; distinct = SHA-1 of the case"
 )
 
@@ -106,6 +106,7 @@ def _norm(case):
         "fault": None,
         "chunks": [int(x) for x in case.get("chunks", [])],
         "bufsize": int(case.get("bufsize", -1)),
+        "pipelined": bool(case.get("pipelined", True)),
     }
     f = case.get("fault")
     if f is not None:
@@ -113,7 +114,7 @@ def _norm(case):
     return c
 
 
-def execute(ctx, case):
+def execute(ctx, case, _attempt=0):
     from vlib.sftpenv import SftpEnv
 
     case = _norm(case)
@@ -154,7 +155,7 @@ def execute(ctx, case):
             return client.getfo("/src", out, cb, case["prefetch"], case["maxreq"])
         if op == "pwrite":
             f = client.open("/dst", "wb", case["bufsize"])
-            f.set_pipelined(True)
+            f.set_pipelined(case["pipelined"])
             try:
                 pos = 0
                 for n in case["chunks"]:
@@ -181,6 +182,12 @@ def execute(ctx, case):
             f._closed = True  # the session is over: nothing left for __del__ to flush or close
     if left or env.threads_alive():
         ctx.inconc("harness:thread-left-behind")
+    if status == "stuck" and not str(value).startswith("deadlock proven") and _attempt < 2:
+        # verdict by the clock only: must show three times in a row (retry rule)
+        shutil.rmtree(base, ignore_errors=True)
+        return execute(ctx, case, _attempt + 1)
+    if status != "stuck" and _attempt > 0:
+        ctx.inconc("transfer-block-not-reproduced")
 
     hit = plan.hits > 0
     fkind = "none" if case["fault"] is None else "%s-%s" % (case["fault"][0], case["fault"][2])
@@ -224,13 +231,13 @@ def execute(ctx, case):
                 env.server_log[-4:],
             )
             if rejected_write:
-                ctx.violation(SIG_DROPPED[0], SIG_DROPPED[1], case, detail)
+                ctx.violation(SIG_DROPPED[0], SIG_DROPPED[1] if case["pipelined"] else "non-pipelined-file", case, detail)
             else:
                 ctx.violation("silent-corruption", "%s:%s:prefetch=%s" % (op, fkind, case["prefetch"]), case, detail)
             return
         if op == "pwrite" and rejected_write:
             # same bytes by luck is impossible here (a rejected write leaves a hole), kept for completeness
-            ctx.violation(SIG_DROPPED[0], SIG_DROPPED[1], case, "write rejected but close() returned")
+            ctx.violation(SIG_DROPPED[0], SIG_DROPPED[1] if case["pipelined"] else "non-pipelined-file", case, "write rejected but close() returned")
             return
         if op in ("put", "putfo") and case["confirm"]:
             if getattr(value, "st_size", None) != len(src):
@@ -281,6 +288,7 @@ def case_st(draw):
             nreq = nreq * 4 + 4
         if op == "pwrite":
             case["bufsize"] = draw(st.sampled_from([-1, 0, 1000, 65536]))
+            case["pipelined"] = draw(st.sampled_from([True, True, False]))
             case["chunks"] = draw(st.lists(st.sampled_from([0, 1, 100, 8191, 8192, 32768, 32769, 70000]), max_size=6))
             nreq = nreq + len(case["chunks"]) + 2
     else:
@@ -298,10 +306,10 @@ def case_st(draw):
     return case
 
 
-def baseline_cases():
+def baseline_cases(quick):
     """Fault-free transfers (the sanity clause, and short local source reads)."""
     out = []
-    for size in (0, 1, 8191, 8192, CHUNK - 1, CHUNK, CHUNK + 1, 3 * CHUNK + 5, 200000):
+    for size in (0, 8192, CHUNK, CHUNK + 1, 3 * CHUNK + 5) if quick else (0, 1, 8191, 8192, CHUNK - 1, CHUNK, CHUNK + 1, 3 * CHUNK + 5, 200000):
         out.append({"op": "put", "size": size, "seed": 3, "confirm": True, "cb": True})
         out.append({"op": "putfo", "size": size, "seed": 4, "confirm": False})
         out.append({"op": "get", "size": size, "seed": 5, "prefetch": True, "cb": True})
@@ -324,6 +332,7 @@ def enumerated(max_chunks):
                     for confirm in (True, False):
                         out.append({"op": "put", "size": size, "seed": n, "confirm": confirm, "fault": ["w", k, "error", code]})
                 out.append({"op": "pwrite", "size": size, "seed": n, "fault": ["w", k, "error", 4], "chunks": [CHUNK] * (n - 1)})
+                out.append({"op": "pwrite", "size": size, "seed": n, "pipelined": False, "fault": ["w", k, "error", 3], "chunks": [CHUNK] * (n - 1)})
             # reads: n data reads (+ the EOF probe, which carries no data)
             for k in range(n):
                 for prefetch in (True, False):
@@ -339,8 +348,8 @@ def run(ctx):
     ctx.set_budget(70, 1500)
     ctx.assume("SFTP_EOF is not injected as a read fault: an EOF status legitimately ends the file for the client")
     ctx.assume("same-size data corruption and writes acknowledged but not performed are outside the fault model (SFTP writes are all-or-error)")
-    max_chunks = 3 if ctx.quick else 8
-    cases = baseline_cases() + enumerated(max_chunks)
+    max_chunks = 2 if ctx.quick else 8
+    cases = baseline_cases(ctx.quick) + enumerated(max_chunks)
     mine = [c for i, c in enumerate(cases) if i % ctx.nworkers == ctx.worker]
     done = 0
     for c in mine:
@@ -348,11 +357,11 @@ def run(ctx):
             break
         execute(ctx, c)
         done += 1
-    ctx.note("enumerated_chunk_positions_upto_chunks", max_chunks)
+    ctx.note("enumerated_chunk_positions_files_of_chunks", "1..%d" % max_chunks)
     ctx.note("enumerated_cases", done)
     if not ctx.quick:
         ctx.exhaustive = done == len(mine)
-    ctx.explore(case_st(), lambda c: execute(ctx, c), ctx.scale(250, 1500))
+    ctx.explore(case_st(), lambda c: execute(ctx, c), ctx.scale(200, 1500))
 
 
 def replay(ctx, case):
